@@ -232,3 +232,33 @@ def r07_7(ctx, rr):
             rr.violate(key, "%s::%s must compute what %s::%s computes with the unaligned read in place of the aligned one; aligned: %s; unaligned: %s" % (owner, twin, owner, name, tshow(ta)[:260], tshow(tu)[:260]), u.span)
     if n < 6:
         raise AnchorMissing("expected the 4 + 4 aligned/unaligned query pairs of VFunc and VFilter, found %d" % n)
+
+
+@rule("R08.5", props=["C08", "C07"], scope_all=True, floor=10, title="ToSig of the integer key types hashes the whole key: no narrowing conversion between the key and the bytes handed to the hash (two keys that differ must be able to get different signatures)")
+def r08_5(ctx, rr):
+    """A function or filter is keyed by signatures. If `to_sig` narrows the key first (`*key as u64` for a u128 key),
+    keys that agree on the kept bits are one key to the structure: a non-member sharing them with a member is always
+    reported as contained (false-positive rate 1 instead of 2^-b), and two members with different values cannot both be
+    stored."""
+    F = ctx.F()
+    W_ = {"u8": 8, "i8": 8, "u16": 16, "i16": 16, "u32": 32, "i32": 32, "u64": 64, "i64": 64, "usize": 64, "isize": 64, "u128": 128, "i128": 128}
+    bs = [b for b in F.fns() if b.name == "to_sig" and (b.impl_trait or "").endswith("ToSig") and (b.impl_self or "") in W_]
+    if len(bs) < 10:
+        raise AnchorMissing("expected the ToSig impls of the primitive integer types, found %d" % len(bs))
+    for b in bs:
+        rr.instances += 1
+        kw = W_[b.impl_self]
+        kid = b.params[0]["id"] if b.params and b.params[0].get("k") == "PBind" else None
+        bad = None
+        for n in walk(b.body):
+            if n.get("k") == "Cast":
+                src, dst = F.ty(n["e"]).lstrip("&"), F.ty(n)
+                from_key = any(x.get("k") == "Path" and x.get("res") == "local" and x.get("id") == kid for x in walk(n["e"]))
+                if from_key and src == b.impl_self and dst in W_ and W_[dst] < kw:
+                    bad = (n, dst)
+            if n.get("k") == "MethodCall" and n["name"] in ("try_into", "truncate") or (n.get("k") == "Call" and (cname(F, n) or "").endswith("TryFrom::try_from")):
+                pass
+        key = "ToSig<%s>:whole-key-hashed" % b.impl_self
+        rr.ob(bad is None, key=key, sample={"impl": b.key})
+        if bad is not None:
+            rr.violate(key, "%s converts the %d-bit key to %s (`%s`) before hashing it: keys that differ only in the dropped bits get the same signature, so a filter answers `contained` for every such non-member and a function cannot tell them apart" % (b.key, kw, bad[1], show(F, bad[0])[:50]), F.loc(bad[0]))
